@@ -15,6 +15,7 @@
 number."""
 
 from __future__ import annotations
+import copy
 import dataclasses
 from pathlib import Path
 from types import TracebackType
@@ -174,7 +175,9 @@ class _DatasetFillerContext:
         # written so that a rejected example does not label (or later force
         # closing of) a shard it is not part of.
         if custom_metadata:
-            current_progress.shard.shard_info.custom_metadata = custom_metadata
+            # Keep our own copy, the caller may mutate or reuse the object.
+            current_progress.shard.shard_info.custom_metadata = copy.deepcopy(
+                custom_metadata)
 
         # We have updated the current progress.
         assert self._current_shards_progress[split] == current_progress
